@@ -464,7 +464,167 @@ def final_checks(ctx: Ctx, m: Monitor, bio):
     return out
 
 
-def check_case(ctx: Ctx, drv: Driver, text, opts, feats, seen_sig):
+# ------------------------------------------------------------------ protonated carboxyl groups
+# The clause "stays attached to its parent atom through optimisation" for the one optimisation class that RENAMES heavy
+# atoms: Carboxylic keeps one of the alternative protons of a protonated carboxyl group and, because the force fields
+# know the proton only as HD2 / HE2 (HO) on OD2 / OE2 (OXT... O), swaps the NAMES of the two oxygens when the proton kept
+# sits on the other one. Which oxygens get candidate protons depends on the two C-O bond lengths of the input (only the
+# longer bond when they differ by more than 0.05 A). The stream below varies exactly that.
+
+_DEF_PARENTS = None
+CARBOXYL = {"ASP": ("CG", "OD1", "OD2", "ASH"), "GLU": ("CD", "OE1", "OE2", "GLH"), "ASH": ("CG", "OD1", "OD2", "ASH"), "GLH": ("CD", "OE1", "OE2", "GLH")}
+CARBOXYL_SHAPES = ("first-longer", "second-longer", "symmetric", "first-longer-borderline", "second-longer-borderline", "as-deposited")
+
+
+def def_parents():
+    """{definition name: {hydrogen name: (parent name, template bond length)}} read from the topology data files
+    (AA.xml / NA.xml through pdb2pqr.io.get_definitions), not from any residue object of a run"""
+    global _DEF_PARENTS
+    if _DEF_PARENTS is None:
+        from pdb2pqr import io as pio
+
+        out = {}
+        for name, ref in pio.get_definitions().map.items():
+            tab = {}
+            for an, at in getattr(ref, "map", {}).items():
+                if not an.startswith("H"):
+                    continue
+                heavy = [b for b in at.bonds if not b.startswith("H") and b in ref.map]
+                if len(heavy) == 1:
+                    tab[an] = (heavy[0], dist(tuple(map(float, at.coords)), tuple(map(float, ref.map[heavy[0]].coords))))
+            out[name] = tab
+        _DEF_PARENTS = out
+    return _DEF_PARENTS
+
+
+def parent_checks(ctx: Ctx, text, bio, tol=0.25):
+    """every hydrogen of the final model that the INPUT did not carry (so: added by pdb2pqr) lies at the template bond
+    length from the atom that its residue definition names as its parent - both taken BY NAME from the final model.
+    Parent and length come from the definition files for the residue's final name; for ASP / GLU that carry the
+    carboxylic proton (protonated through the pKa route: patch ASH / GLH) from the ASH / GLH definition."""
+    given = set()
+    for l in text.splitlines():
+        if l.startswith(("ATOM", "HETATM")) and len(l) >= 54:
+            given.add((l[21], l[22:27].strip(), l[12:16].strip()))
+    tabs = def_parents()
+    out = []
+    for res in bio.residues:
+        tab = dict(tabs.get(res.name) or {})
+        if res.name in ("ASP", "GLU"):
+            prot = tabs.get(CARBOXYL[res.name][3]) or {}
+            for hn in ("HD1", "HD2", "HE1", "HE2"):
+                if hn in prot:
+                    tab.setdefault(hn, prot[hn])
+        if not tab:
+            continue
+        byname = {a.name: a for a in res.atoms}
+        for a in res.atoms:
+            if not a.name.startswith("H") or (str(res.chain_id), f"{res.res_seq}{res.ins_code}".strip(), a.name) in given:
+                continue
+            if a.name not in tab:
+                ctx.count("template-parent-oracle", "hydrogen not in the base definition (terminus / patch)")
+                continue
+            pn, tpl = tab[a.name]
+            ctx.evaluations += 1
+            if pn not in byname:
+                ctx.count("template-parent-oracle", "parent absent")
+                out.append(({"kind": "no-parent", "residue": res.name, "pos": position(res), "atom": a.name}, f"{res} {a.name}: the atom {pn} its definition bonds it to is not in the final model"))
+                continue
+            d = dist(tuple(a.coords), tuple(byname[pn].coords))
+            carbox = a.name in ("HD1", "HD2", "HE1", "HE2") and res.name in CARBOXYL
+            ctx.count("template-parent-oracle", ("carboxylic proton " if carbox else "hydrogen ") + ("at bond length" if abs(d - tpl) <= tol else "OFF its parent"))
+            if abs(d - tpl) > tol:
+                near = min(((dist(tuple(a.coords), tuple(b.coords)), b.name) for b in res.atoms if b is not a and not b.name.startswith("H")), default=(float("nan"), "?"))
+                out.append(({"kind": "hydrogen-off-its-template-parent", "residue": res.name, "pos": position(res), "atom": a.name}, f"{res} {a.name}: {d:.3f} A from {pn}, the atom its definition bonds it to (template {tpl:.3f} A); it sits {near[0]:.3f} A from {near[1]}"))
+    return out
+
+
+def set_bond_length(c, o, length):
+    """move atom o along the line c -> o so that |co| = length"""
+    v = (o.x - c.x, o.y - c.y, o.z - c.z)
+    n = math.sqrt(sum(t * t for t in v))
+    if n < 1e-6:
+        return
+    o.x, o.y, o.z = (round(c.x + v[0] / n * length, 3), round(c.y + v[1] / n * length, 3), round(c.z + v[2] / n * length, 3))
+
+
+def shape_carboxyl(rng, r, shape):
+    """give the carboxyl group of residue r (ASP / GLU side chain) the two C-O bond lengths of `shape`. -> (l1, l2) as written"""
+    cn, o1n, o2n, _ = CARBOXYL[r[0].resn]
+    at = {a.name: a for a in r}
+    if not all(n in at for n in (cn, o1n, o2n)):
+        return None
+    c, o1, o2 = at[cn], at[o1n], at[o2n]
+    if shape != "as-deposited":
+        long_, short = rng.uniform(1.30, 1.36), rng.uniform(1.19, 1.23)
+        if shape == "symmetric":
+            l1 = rng.uniform(1.24, 1.27)
+            l2 = l1 + rng.uniform(-0.03, 0.03)
+        elif shape.endswith("borderline"):
+            # around the 0.05 A at which only the longer bond is optimised (coordinates are written with 3 decimals)
+            short = rng.uniform(1.22, 1.25)
+            long_ = short + rng.choice([0.04, 0.045, 0.056, 0.06, 0.07])
+            l1, l2 = (long_, short) if shape.startswith("first") else (short, long_)
+        else:
+            l1, l2 = (long_, short) if shape.startswith("first") else (short, long_)
+        set_bond_length(c, o1, l1)
+        set_bond_length(c, o2, l2)
+    p = lambda a: (a.x, a.y, a.z)  # noqa: E731
+    return math.dist(p(c), p(o1)), math.dist(p(c), p(o2))
+
+
+def gen_carboxyl_case(rng, ci):
+    """a peptide with protonated carboxyl groups: given BY NAME as ASH / GLH, or ASP / GLU protonated through the pKa
+    route (PROPKA at pH <= 1), the two C-O bonds of each group asymmetric in either direction, symmetric, or as deposited;
+    waters near the group so that the hydrogen-bond routes (try_donor / try_acceptor / fix) run besides finalize"""
+    must = rng.choice(["ASP", "GLU"])
+    _f, res = G.window(rng, rng.choice([2, 3, 4, 6]), must_have=must)
+    G.set_chain(res, "A", rng.choice([1, 17, 250]))
+    shape = CARBOXYL_SHAPES[ci % len(CARBOXYL_SHAPES)]
+    # shape, route and mode cycle with periods 6, 18 (blocks of six) and 7: every shape meets every route and mode
+    route = ("name", "name", "pH")[(ci // len(CARBOXYL_SHAPES)) % 3]
+    mode = ([], [], [], ["--nodebump"], [], [], ["--noopt"])[ci % 7]
+    idx = [i for i, r in enumerate(res) if r[0].resn == must]
+    ti = rng.choice(idx)
+    waters = []
+    written = None
+    for i, r in enumerate(res):
+        if r[0].resn not in ("ASP", "GLU"):
+            continue
+        sh = shape if i == ti else rng.choice(CARBOXYL_SHAPES)
+        lens = shape_carboxyl(rng, r, sh)
+        if i == ti:
+            written = lens
+        if route == "name" and (i == ti or rng.random() < 0.7):
+            for a in r:
+                a.resn = CARBOXYL[a.resn][3]
+    allp = [(a.x, a.y, a.z) for r in res for a in r]
+    cat = next((a for a in res[ti] if a.name == CARBOXYL[res[ti][0].resn][0]), None)
+    if cat is not None:
+        for k in range(rng.choice([0, 0, 1, 2, 3])):
+            for _ in range(60):
+                w = G.water(rng, "A", 900 + k, (cat.x, cat.y, cat.z), 4.0, rng.choice(["HOH", "HOH", "WAT"]))
+                p = (w[0].x, w[0].y, w[0].z)
+                if min(math.dist(p, q) for q in allp) > 2.5:
+                    waters.append(w)
+                    allp.append(p)
+                    break
+    opts = ["--ff=" + rng.choice(["AMBER", "CHARMM", "PARSE", "SWANSON", "TYL06", "PEOEPB"])]
+    if route == "pH":
+        opts += ["--titration-state-method=propka", f"--with-ph={rng.choice([0.0, 0.5, 1.0])}"]
+    opts += mode
+    diff = (written[0] - written[1]) if written else 0.0
+    feats = {
+        "kind": "protonated-carboxyl:" + shape,
+        "mode": ("by-name" if route == "name" else "by-pH") + (" " + " ".join(mode) if mode else ""),
+        "target": CARBOXYL[must][3] if route == "name" else must,
+        "pos": "NC" if len(res) == 1 else ("N" if ti == 0 else ("C" if ti == len(res) - 1 else "mid")),
+        "c-o-difference": "first longer by > 0.05" if diff > 0.05 else "second longer by > 0.05" if diff < -0.05 else "within 0.05",
+    }
+    return G.to_pdb([res], waters), opts, feats
+
+
+def check_case(ctx: Ctx, drv: Driver, text, opts, feats, seen_sig, parents=False):
     with Monitor() as m:
         r = G.run_pipeline(text, opts)
     ctx.evaluations += 1
@@ -478,12 +638,15 @@ def check_case(ctx: Ctx, drv: Driver, text, opts, feats, seen_sig):
     fit_choice_tie(ctx, drv, m)
     link_tie(ctx, drv, m)
     found = fit_checks(ctx, drv, m) + tetra_checks(ctx, drv, m) + third_checks(ctx, drv, m) + torsion_checks(ctx, m) + final_checks(ctx, m, r.biomolecule)
+    if parents:
+        found += parent_checks(ctx, text, r.biomolecule)
     ctx.count("oracle", "holds" if not found else found[0][0]["kind"])
     for sig, msg in found:
         k = tuple(sorted(sig.items()))
         if k not in seen_sig:
             seen_sig.add(k)
             ctx.violate(sig, msg, {"pdb": text, "options": opts})
+    return r
 
 
 def with_waters(rng, text):
@@ -510,6 +673,7 @@ def run(ctx: Ctx):
     drv = Driver()
     ctx.extra["rule"] = (
         "the C04 case stream (each residue type forced in turn at every chain position, packed waters forcing debumping, missing side-chain atoms (outer ends, single atoms in the middle of a chain, backbone O / N) forcing heavy-atom repair, disulfide pairs, option modes incl. PROPKA states) plus free waters; "
+        "peptides with protonated carboxyl groups (ASH / GLH by name, ASP / GLU through PROPKA at pH <= 1) whose two C-O bond lengths are asymmetric in either direction, symmetric, borderline (0.04-0.07 A) or as deposited, waters nearby; "
         "a case is (kind, option mode, target residue type, position); every find_coordinates / rotate_tetrahedral / make_atom_with_no_bonds / set_dihedral_angle call observed is an evaluation"
     )
     seen_sig = set()
@@ -533,6 +697,13 @@ def run(ctx: Ctx):
         check_case(ctx, drv, text, opts, feats, seen_sig)
         if ci < 2:
             ctx.sample({"options": opts, "features": feats, "pdb_head": text.splitlines()[:3]})
+    # protonated carboxyl groups (ASH / GLH given by name, ASP / GLU protonated through the pKa route) with the two C-O
+    # bond lengths asymmetric in either direction, symmetric, borderline, or as deposited: the optimisation class that
+    # swaps the names of the two oxygens under the proton it keeps
+    for ci in range(ctx.scale(24, 600)):
+        text, opts, feats = gen_carboxyl_case(rng, ci)
+        ctx.count("carboxyl-c-o-difference", f"{feats['mode']}: {feats.pop('c-o-difference')}")
+        check_case(ctx, drv, text, opts, feats, seen_sig, parents=True)
 
 
 def replay(ctx: Ctx, data: dict) -> bool:
@@ -544,7 +715,7 @@ def replay(ctx: Ctx, data: dict) -> bool:
     if r.status != "ok":
         print("run status", r.status)
         return False
-    found = fit_checks(ctx, drv, m) + tetra_checks(ctx, drv, m) + torsion_checks(ctx, m) + final_checks(ctx, m, r.biomolecule)
+    found = fit_checks(ctx, drv, m) + tetra_checks(ctx, drv, m) + torsion_checks(ctx, m) + final_checks(ctx, m, r.biomolecule) + parent_checks(ctx, rp["pdb"], r.biomolecule)
     for sig, msg in found:
         print(sig, msg)
     return bool(found)
